@@ -29,11 +29,28 @@ pub fn rpu_of_size(base: &[u8], size: usize, seed: u64) -> Option<Vec<u8>> {
     let extra = size - cur;
     let mut out = base[..body_end].to_vec();
     let mut x = seed.wrapping_mul(6364136223846793005).wrapping_add(size as u64 | 1);
+    let start = out.len();
     for _ in 0..extra {
         x ^= x << 13;
         x ^= x >> 7;
         x ^= x << 17;
         out.push((x >> 24) as u8);
+    }
+    // every third size: byte patterns that look like emulation prevention (the AV1 container carries the RPU
+    // without it, so they are plain payload): 00 00 03 0k, 00 00 0k, 00 00 00, at pseudo-random offsets
+    if size % 3 == 1 && extra >= 4 {
+        let pats: [&[u8]; 6] = [&[0, 0, 3, 0], &[0, 0, 3, 1], &[0, 0, 3, 3], &[0, 0, 1], &[0, 0, 0, 0], &[0, 0, 3, 2, 0, 0, 3]];
+        let n = 1 + (x % 3) as usize;
+        for k in 0..n {
+            x ^= x << 13;
+            x ^= x >> 7;
+            x ^= x << 17;
+            let p = pats[((x >> 16) as usize + k) % pats.len()];
+            if extra >= p.len() {
+                let off = start + ((x >> 32) as usize) % (extra - p.len() + 1);
+                out[off..off + p.len()].copy_from_slice(p);
+            }
+        }
     }
     let crc = crc32_mpeg2(&out[1..]);
     out.extend_from_slice(&crc.to_be_bytes());
